@@ -210,6 +210,7 @@ func wirePairDedup(w *World, wc *wireCtx, r *Report, ruleDedup string, onlyRole 
 			continue
 		}
 		var usesKey, usesVal, inPairLoop bool
+		loops := pairLoopBlocks(fn)
 		for _, st := range wc.m.sitesOf(fn) {
 			pf := pairUse(wc, st)
 			if pf["Key"] {
@@ -217,7 +218,11 @@ func wirePairDedup(w *World, wc *wireCtx, r *Report, ruleDedup string, onlyRole 
 			}
 			if pf["Value"] {
 				usesVal = true
-				inPairLoop = true
+				// per-pair text: the piece is emitted inside this function's own loop over match pairs (a caller that merely embeds
+				// what such an emitter returned, or a selector returning pair.Value, emits nothing per pair itself)
+				if loops[st.instr.Block()] {
+					inPairLoop = true
+				}
 			}
 		}
 		if !inPairLoop || usesKey {
@@ -439,8 +444,35 @@ func wireMatch(w *World, wc *wireCtx, r *Report) {
 
 // dedupKeys: the MatchPair fields used as keys of seen-sets (local maps that are both looked up and updated) in fn and in the helpers that produce/filter the pair slice it iterates.
 func dedupKeys(w *World, fn *ssa.Function, depth int, seen map[*ssa.Function]bool) map[string]bool {
+	return dedupKeysB(w, fn, depth, seen, nil)
+}
+
+// pairFieldReturned: h is a selector function func(MatchPair) string returning one member of its argument.
+func pairFieldReturned(h *ssa.Function) string {
+	if h == nil || h.Blocks == nil || len(h.Params) == 0 {
+		return ""
+	}
+	out := ""
+	for _, b := range h.Blocks {
+		ret, ok := b.Instrs[len(b.Instrs)-1].(*ssa.Return)
+		if !ok || len(ret.Results) != 1 {
+			continue
+		}
+		f := pairFieldOf(ret.Results[0])
+		if f == "" || (out != "" && out != f) {
+			return ""
+		}
+		out = f
+	}
+	return out
+}
+
+func dedupKeysB(w *World, fn *ssa.Function, depth int, seen map[*ssa.Function]bool, fbind map[*ssa.Parameter]*ssa.Function) map[string]bool {
 	out := map[string]bool{}
-	if depth > 3 || seen[fn] || fn.Blocks == nil {
+	if depth > 3 || fn.Blocks == nil {
+		return out
+	}
+	if seen[fn] && len(fbind) == 0 {
 		return out
 	}
 	seen[fn] = true
@@ -450,7 +482,24 @@ func dedupKeys(w *World, fn *ssa.Function, depth int, seen map[*ssa.Function]boo
 			if _, fresh := valueRoot(x.Map).(*ssa.MakeMap); !fresh {
 				return
 			}
-			if f := pairFieldOf(x.Key); f != "" {
+			kf := pairFieldOf(x.Key)
+			if kf == "" {
+				// the key is what a selector function handed in (or a local closure) extracts from the pair: seen[by(pair)]
+				if kc, ok := stripIdentity(x.Key).(*ssa.Call); ok && !kc.Call.IsInvoke() {
+					var sel *ssa.Function
+					if p, isParam := stripIdentity(kc.Call.Value).(*ssa.Parameter); isParam {
+						sel = fbind[p]
+					} else {
+						sel = calleeOf(kc)
+					}
+					if len(kc.Call.Args) == 1 && pairFieldOf(kc.Call.Args[0]) == "" {
+						if _, isPair := kc.Call.Args[0].Type().Underlying().(*types.Struct); isPair || modelTypeName(kc.Call.Args[0].Type()) == "MatchPair" {
+							kf = pairFieldReturned(sel)
+						}
+					}
+				}
+			}
+			if f := kf; f != "" {
 				// it is a seen-set only if the same map is also looked up
 				mm := valueRoot(x.Map)
 				for _, ref := range *mm.(*ssa.MakeMap).Referrers() {
@@ -488,7 +537,29 @@ func dedupKeys(w *World, fn *ssa.Function, depth int, seen map[*ssa.Function]boo
 				}
 			}
 			if rel {
-				for k := range dedupKeys(w, g, depth+1, seen) {
+				// function values handed to the helper (a selector deciding what "the same pair" means)
+				fb := map[*ssa.Parameter]*ssa.Function{}
+				for i, a := range x.Call.Args {
+					if i >= len(g.Params) {
+						break
+					}
+					if _, isSig := g.Params[i].Type().Underlying().(*types.Signature); !isSig {
+						continue
+					}
+					switch av := stripIdentity(a).(type) {
+					case *ssa.Function:
+						fb[g.Params[i]] = av
+					case *ssa.MakeClosure:
+						if f2, ok := av.Fn.(*ssa.Function); ok {
+							fb[g.Params[i]] = f2
+						}
+					case *ssa.Parameter:
+						if h := fbind[av]; h != nil {
+							fb[g.Params[i]] = h
+						}
+					}
+				}
+				for k := range dedupKeysB(w, g, depth+1, seen, fb) {
 					out[k] = true
 				}
 			}
@@ -847,4 +918,35 @@ func k64(bo *ssa.BinOp) bool {
 		}
 	}
 	return false
+}
+
+// pairLoopBlocks: the blocks of fn that lie inside a loop over a []MatchPair.
+func pairLoopBlocks(fn *ssa.Function) map[*ssa.BasicBlock]bool {
+	out := map[*ssa.BasicBlock]bool{}
+	forEachInstr(fn, func(_ *ssa.BasicBlock, ins ssa.Instruction) {
+		ia, ok := ins.(*ssa.IndexAddr)
+		if !ok {
+			return
+		}
+		sl, ok := ia.X.Type().Underlying().(*types.Slice)
+		if !ok || modelTypeName(sl.Elem()) != "MatchPair" {
+			return
+		}
+		var hdr *ssa.BasicBlock
+		switch ix := ia.Index.(type) {
+		case *ssa.BinOp:
+			if phi, ok := ix.X.(*ssa.Phi); ok {
+				hdr = phi.Block()
+			}
+		case *ssa.Phi:
+			hdr = ix.Block()
+		}
+		if hdr == nil {
+			return
+		}
+		for b := range naturalLoop(hdr) {
+			out[b] = true
+		}
+	})
+	return out
 }
